@@ -183,7 +183,8 @@ def gen_spec(rng, quick=True, force=None):
         hl = rng.choice([1, 10, 50, 79, 80])
         h = text(rng, hl, 'abcdefgh ijkl MNOP 0123456789:/.')
         s.hist.append(h)
-    s.app = rng.choice(['', '', 'appended text\n', bytes(rng.getrandbits(8) for _ in range(rng.choice([1, 100, 700]))).decode('latin-1')])
+    # (first bytes 0xFF / 0x00 / 0x1A: what a reader that tests one byte ahead with a char, a C string or a text-mode EOF loses)
+    s.app = rng.choice(['', '', 'appended text\n', '\xff', '\xff\xfeA\x00p\x00', '\x00after a NUL', '\x1aafter ctrl-Z', '\xff' * 40, bytes(rng.getrandbits(8) for _ in range(rng.choice([1, 100, 700]))).decode('latin-1')])
     return s
 
 
